@@ -120,15 +120,49 @@ pub fn run(run: &Run) {
         // every (x<<21 | ascii/letter) alias of a valid code point in the low 21 bits
         for hi in 1u32..2048 {
             for lo in [0x61u32, 0xe9, 0x4e00, 0x200d, 0xb7, 0x10400] {
-                l.cases += 1;
-                if let Err(v) = check_cp((hi << 21) | lo, l) {
-                    run.violate(v);
-                    return;
+                // call history: the low code point first (a memo may be keyed on too few bits), the alias, the low one again
+                for cp in [lo, (hi << 21) | lo, lo] {
+                    l.cases += 1;
+                    if let Err(v) = check_cp(cp, l) {
+                        run.violate(v);
+                        return;
+                    }
                 }
             }
         }
     });
-    run.prop("random_above_range", run.pick(1_000_000, 50_000_000), || 0x110000u32..=u32::MAX, |cp, l| check_cp(*cp, l));
+    run.prop("random_above_range", run.pick(1_000_000, 50_000_000), || (0x110000u32..=u32::MAX, 16u32..30), |(cp, bits), l| {
+        // the value, and around it the in-range value that shares its low bits (call-history dependent memo tables)
+        let low = cp & ((1u32 << bits) - 1);
+        if low <= 0x10ffff {
+            check_cp(low, l)?;
+        }
+        check_cp(*cp, l)?;
+        if low <= 0x10ffff {
+            check_cp(low, l)?;
+        }
+        Ok(())
+    });
+    // every in-range valid code point paired with its aliases at +2^21 .. +2^31 (same thread, alternating)
+    run.par("aliases_of_valid_code_points", true, |tid, n, l| {
+        let d = db();
+        let mut cp = tid as u32;
+        while cp < 0x110000 {
+            if cp % 7 == 0 && matches!(d.id(cp), Dpv::PValid | Dpv::ContextJ | Dpv::ContextO) || matches!(d.ff(cp), Dpv::SpecPval) && cp % 5 == 0 {
+                for sh in [21u32, 24, 29, 30, 31] {
+                    let alias = cp | (1u32 << sh);
+                    for x in [cp, alias, cp] {
+                        l.cases += 1;
+                        if let Err(v) = check_cp(x, l) {
+                            run.violate(v);
+                            return;
+                        }
+                    }
+                }
+            }
+            cp += n as u32;
+        }
+    });
 }
 
 pub fn replay(_run: &Run, case: &Value) -> Check {
